@@ -6,6 +6,7 @@ import Rsactor.Exec
 import Rsactor.Tables
 import Rsactor.Monitor
 import Rsactor.Net
+import Rsactor.Macro
 
 open Rsactor Rsactor.Model Rsactor.Exec
 
@@ -203,7 +204,7 @@ def monitorsFor (names : List String) (settled : Bool) : List (String × (Monito
      ("C05", Monitor.C05.ok), ("C06", Monitor.C06.ok),
      ("C07", if settled then Monitor.C07.okSettled else Monitor.C07.ok),
      ("C08", Monitor.C08.ok), ("C09", Monitor.C09.ok), ("C10", Monitor.C10.ok), ("C11", Monitor.C11.ok),
-     ("C13", Monitor.C13.ok)]
+     ("C13", Monitor.C13.ok), ("C19", Monitor.C19.ok)]
   all.filter fun p => names.contains p.1
 
 partial def monitorLoop (h : IO.FS.Stream) (names : List String) (cur : Option (String × Bool × Nat × List Ev))
@@ -355,6 +356,40 @@ partial def netLoop (h : IO.FS.Stream) (cur : Option (String × NR × NR)) (ntr 
   | _, some (name, r, ri) => netLoop h (some (name, nrLine r ws, nrLine ri ws)) ntr nfail ndiff nlab
   | _, none => netLoop h none ntr nfail ndiff nlab
 
+/-- `macro <attr> <ret> <actualResult>`: what the derive macro decides for one handler (C19 corpus) -/
+def macroLine (ws : List String) : String :=
+  let attr : Option Macro.AttrForm :=
+    match ws[0]? with
+    | some "path" => some .path
+    | some "nv" => some .nameValue
+    | some a =>
+      if a.startsWith "list:" then
+        let body := (a.drop 5).toString
+        let names := if body.isEmpty then [] else body.splitOn ","
+        (names.mapM fun n => match n with
+          | "r" => some Macro.OptName.result | "n" => some Macro.OptName.noLog | "u" => some Macro.OptName.unknown
+          | _ => none).map .list
+      else none
+    | none => none
+  let ret : Option (Option RetTy) :=
+    match ws[1]? with
+    | some "none" => some none
+    | some "other" => some (some .other)
+    | some r =>
+      if r.startsWith "path:" then
+        (((r.drop 5).toString.splitOn ".").mapM fun n => match n with
+          | "r" => some Ident.result | "o" => some Ident.other | _ => none).map fun segs => some (.path segs)
+      else none
+    | none => none
+  let actual : Option Bool := match ws[2]? with | some "true" => some true | some "false" => some false | _ => none
+  match attr, ret, actual with
+  | some a, some r, some b =>
+    match Macro.decision a r b with
+    | .compileError => "error"
+    | .impl true => "log"
+    | .impl false => "nolog"
+  | _, _, _ => "bad-macro-line"
+
 partial def loop (h : IO.FS.Stream) (st : Option Sys) : IO Unit := do
   let line ← h.getLine
   if line.isEmpty then return ()
@@ -373,6 +408,7 @@ partial def loop (h : IO.FS.Stream) (st : Option Sys) : IO Unit := do
       loop h (some s1)
     | none => IO.println "! bad-spawn"; loop h none
   | "tables" :: rest => Rsactor.Tables.run rest; loop h st
+  | "macro" :: rest => IO.println (macroLine rest); loop h st
   | ["netreplay"] => netLoop h none 0 0 0 0
   | "monitor" :: names => monitorLoop h ((names.map (·.splitOn ",")).flatten) none 0 0 0
   | _ =>
